@@ -11,6 +11,8 @@ src: file.c
 enforce: spiftool_temp_file
 backend: sat
 timeout: 300
+native: c11_replay
+native_includes: conf.c
 */
 #include "vprelude.h"
 #include "env_conf.h"
